@@ -46,6 +46,16 @@ def is_full_range(l: Loop, extents: Iterable[Poly]) -> bool:
     return l is not None and l.kind == "range" and l.lo == ZERO and l.step == ONE and any(l.hi == e for e in extents)
 
 
+def real_guards(guards) -> List[Cond]:
+    """flattened guard conjuncts, without the path conditions that merely follow an `if ...: raise` precondition check"""
+    out = []
+    for g in guards:
+        if getattr(g, "path", None) == "raise":
+            continue
+        out.extend(g.flat_and())
+    return out
+
+
 def cond_atoms(c: Cond) -> List[Cond]:
     """flatten conjunctions"""
     return c.flat_and()
@@ -94,15 +104,25 @@ def short(p, n=220) -> str:
 
 
 # ---------------------------------------------------------------------------------------------------------------------
+def nests_of(stores: List[Store]) -> List[List[Store]]:
+    """partition stores by the loop nest (identity of enclosing loops) they occur in, in source order"""
+    by_ctx: Dict[tuple, List[Store]] = {}
+    for s in stores:
+        by_ctx.setdefault(tuple(id(l) for l in s.loops), []).append(s)
+    return sorted(by_ctx.values(), key=lambda g: g[0].node.lineno)
+
+
 def check_accumulate(ctx, rule: str, S: Summary, out_name: str, roles: Dict[str, List[Poly]], idx_ref, value_ref,
-                     zero_test_operand=None, require_zero_init: bool = True, what: str = "", allow_assign: bool = False) -> bool:
+                     zero_test_operand=None, require_zero_init: bool = True, what: str = "", allow_assign: bool = False,
+                     stores: Optional[List[Store]] = None, suffix: str = "", allowed_guard=None) -> bool:
     """Obligation: every store into the local output array `out_name` of kernel S.func, taken together, adds exactly
     value_ref(role atoms) at index idx_ref(role atoms), inside loops that each cover one role's full extent [0, extent),
     under no guard other than a zero-test of `zero_test_operand(role atoms)`, on top of an all-zero initial array.
     roles: role name -> list of accepted extent forms.  Returns True if discharged."""
     f = S.func
-    inst = f"{f.key}:{out_name}"
-    stores = S.stores_to(out_name)
+    inst = f"{f.key}:{out_name}{suffix}"
+    if stores is None:
+        stores = S.stores_to(out_name)
     if not stores:
         ctx.ob(rule, inst, None, message=f"no store into output '{out_name}' found (shape of the kernel changed?)")
         return False
@@ -134,6 +154,8 @@ def check_accumulate(ctx, rule: str, S: Summary, out_name: str, roles: Dict[str,
     bound: Dict[str, Poly] = {}
     used = set()
     for role, extents in roles.items():
+        if callable(extents):
+            extents = extents(bound)
         cand = [l for l in loops if is_full_range(l, extents) and id(l) not in used]
         if len(cand) != 1:
             ctx.ob(rule, inst, False, where=f, node=stores[0].node, construct=f"loops: {list(loops)}",
@@ -166,9 +188,11 @@ def check_accumulate(ctx, rule: str, S: Summary, out_name: str, roles: Dict[str,
     # guards
     operand = zero_test_operand(bound) if zero_test_operand else None
     for s in stores:
-        for g in s.guards:
-            for c in g.flat_and():
+        for g in [s]:
+            for c in real_guards(s.guards):
                 if operand is not None and is_zero_test(c, operand):
+                    continue
+                if allowed_guard is not None and allowed_guard(c, bound):
                     continue
                 ok = False
                 ctx.ob(rule, inst + ":guard", False, where=f, node=getattr(c, "node", None) or s.node, construct=repr(c),
